@@ -135,6 +135,15 @@ func (p *c05) Init(tier string) {
 			p.hasNil = append(p.hasNil, false)
 		}
 	}
+	// 64-bit integers beyond 2^53 whose neighbours round to the same double (timestamps in nanoseconds)
+	for _, vals := range [][]int64{{9007199254740993, 9007199254740992, 9007199254740994}, {1700000000000000003, 1700000000000000001, 1700000000000000002, 5}} {
+		rows := []any{}
+		for i, v := range vals {
+			rows = append(rows, map[string]any{"id": float64(i), "a": v, "b": []string{"x", "y"}[i%2], "w": 1.0})
+		}
+		p.tables = append(p.tables, rows)
+		p.hasNil = append(p.hasNil, false)
+	}
 	// larger tables (sorting algorithms switch strategy with the length: 12, 50, ...)
 	for _, n := range []int{14, 33, 70} {
 		rows := []any{}
@@ -268,6 +277,25 @@ func cmpKeys(x, y map[string]any, ks []OrderKey) int {
 			return -1
 		}
 		var c int
+		if ai, ok := a.(int64); ok {
+			// 64-bit integers are compared exactly (beyond 2^53 neighbours round to one float64)
+			if bi, ok := b.(int64); ok {
+				c := 0
+				switch {
+				case ai < bi:
+					c = -1
+				case ai > bi:
+					c = 1
+				}
+				if c != 0 {
+					if k.Desc {
+						return -c
+					}
+					return c
+				}
+				continue
+			}
+		}
 		if _, isStr := a.(string); !isStr {
 			// numbers of any Go numeric type (one type per column), compared by value
 			an, _ := gq.Num(a)
